@@ -42,20 +42,53 @@ POOL = {
     "P": ["tbl", "tp", None, None], "B": ["tbl", "tb", None, None], "D": ["tbl", "td", None, None],
     "A": ["tbl", "ta", None, "xa"], "P2": ["tbl", "tp", None, "p2"], "S": ["tbl", "ts", "sc", None], "SA": ["tbl", "ts", "sc", "sa"],
     "N": ["tbl", "tn", None, None], "NA": ["tbl", "tn", None, "na"],
+    # further un-aliased objects for tables that may be in the statement already (self-joins; the same name in another schema): joined, they
+    # are given the automatic alias <name>2, <name>3, ...
+    "P3": ["tbl", "tp", None, None], "P4": ["tbl", "tp", None, None], "TS": ["tbl", "ts", None, None],
     "Q": ["sub", SUBP, "qq"], "QN": ["sub", SUBP, None], "QN2": ["sub", SUBP2, None], "UN": ["sub", SUBU, None], "C": ["cte", "cc"], "F": ["tbl", "tf", None, None],
 }
 
 
+DUPS = ("P3", "P4", "TS")
+
+
 def auto_names(case):
-    """un-aliased query sources in the order the from_ / join calls add them -> sq0, sq1, ..."""
+    """names the statement gives by itself, in the order the from_ / join calls add the sources: un-aliased query sources -> sq0, sq1, ...;
+    an un-aliased table JOINED under a name that already addresses another source -> <name>2, <name>3, ..."""
     out = {}
+    nsq = 0
+    used = set()
+    present = []  # (table name, schema, alias) of the table sources so far: the library's notion of "the same table"
     for st_ in case["steps"]:
-        if st_[0] in ("from_", "join") and st_[1] and st_[1][0][0] == "src" and st_[1][0][1] in AUTO and st_[1][0][1] not in out:
-            out[st_[1][0][1]] = "sq%d" % len(out)
+        if not (st_[0] in ("from_", "join", "update", "into") and st_[1] and st_[1][0][0] == "src"):
+            continue
+        key = st_[1][0][1]
+        if key in out or key not in POOL:
+            continue
+        spec = POOL[key]
+        if key in AUTO:
+            out[key] = "sq%d" % nsq
+            nsq += 1
+            used.add(out[key])
+        elif spec[0] == "tbl":
+            name = spec[3] or spec[1]
+            ident = (spec[1], json.dumps(spec[2]), None)
+            if st_[0] == "join" and not spec[3] and ident in present:
+                k = 2
+                while "%s%d" % (name, k) in used:
+                    k += 1
+                name = out[key] = "%s%d" % (name, k)
+            present.append((spec[1], json.dumps(spec[2]), spec[3] if key not in out else out[key]))
+            used.add(name)
+        else:
+            used.add(spec[2] if spec[0] == "sub" else spec[1])
     return out
 
 
-def qual_name(key, auto="sq0"):
+def qual_name(key, auto=None):
+    if auto is not None and key in DUPS:
+        return auto
+    auto = auto or "sq0"
     spec = POOL[key]
     if spec[0] == "tbl":
         return spec[3] or spec[1]
@@ -64,7 +97,9 @@ def qual_name(key, auto="sq0"):
     return spec[1]
 
 
-def is_aliased(key):
+def is_aliased(key, case=None):
+    if case is not None and key in DUPS and key in auto_names(case):
+        return True
     spec = POOL[key]
     # a subquery source always carries an alias (explicit or sqN); a CTE reference is addressed by its name, which the library models as its alias
     return (spec[0] == "tbl" and bool(spec[3])) or spec[0] in ("sub", "cte")
@@ -154,6 +189,8 @@ def program(draw):
         for _ in range(draw(st.integers(0, 2))):
             cand = [k for k in table_keys + ["Q", "QN", "QN2", "UN"] if k not in sources and (POOL[k][0] != "tbl" or POOL[k][3] or all(POOL[s][0] != "tbl" or POOL[s][1] != POOL[k][1] or POOL[s][3] for s in sources))]
             cand = [k for k in cand if not (POOL[k][0] == "tbl" and not POOL[k][3] and any(POOL[s][0] == "tbl" and POOL[s][1] == POOL[k][1] and not POOL[s][3] for s in sources))]
+            # a further un-aliased object of a table whose name already addresses a source (self-join, same name in another schema)
+            cand += [k for k in DUPS if k not in sources and any(POOL[s][0] == "tbl" and POOL[s][1] == POOL[k][1] and not POOL[s][3] for s in sources)] * 2
             if not cand:
                 break
             kj = draw(st.sampled_from(cand))
@@ -287,15 +324,15 @@ def expected(case, key, pos):
     """-> None (bare) | qualifier name | ('either', name)"""
     if key is None:
         return None
-    name = qual_name(key, auto_names(case).get(key, "sq0"))
+    name = qual_name(key, auto_names(case).get(key))
     if pos in BARE_POS:
         # SQL wants these bare; the property lets a reference to an aliased source carry its alias everywhere
-        return ("either", name) if is_aliased(key) else None
+        return ("either", name) if is_aliased(key, case) else None
     if pos in EITHER_POS:
         return ("either", name)
     if pos in ("corr_outer", "corr_inner", "corr_select"):
         return name  # the inner query refers to a table of the outer one: both of its namespaces are needed
-    if is_aliased(key) or multi_source(case):
+    if is_aliased(key, case) or multi_source(case):
         return name
     return None
 
@@ -317,12 +354,21 @@ def check_program(case):
     toks = lex.lex(sql, cls)
     out = []
     seen = set()
+    # every source of the statement is addressed by a name of its own
+    names = {}
+    an = auto_names(case)
+    for key in case["sources"]:
+        names.setdefault(qual_name(key, an.get(key)), []).append(key)
+    clash = sorted(k for ks in names.values() if len(ks) > 1 for k in ks)
+    if clash and any(o[1] in clash for o in case["occ"]):
+        # (same table name in two schemas: both are addressed as "name" - the references cannot be told apart)
+        return [(mksig("any", case["kind"], "ambiguous_source_name"), "sources %r are all addressed as %r in %r" % (clash, [n for n, ks in names.items() if len(ks) > 1], sql))]
     corr = [o for o in case["occ"] if o[2] in ("corr_outer", "corr_inner")]
     if corr:
         # one name, two references in operand order: the qualifiers must be those of the two sources, in that order
         idx = [i for i, t in enumerate(toks) if t.kind == "qid" and t.value == corr[0][0]]
         got = [qualifier_before(toks, i) for i in idx]
-        want = [qual_name(o[1], auto_names(case).get(o[1], "sq0")) for o in corr]
+        want = [qual_name(o[1], auto_names(case).get(o[1])) for o in corr]
         if got != want:
             fail = "missing_qualifier" if None in got else "wrong_qualifier"
             out.append((mksig("any", case["kind"], "correlated", "same_name", fail),
